@@ -23,6 +23,7 @@ import statistics
 import types
 import warnings
 from datetime import date as date_type
+from difflib import SequenceMatcher  # at import time: evaluating an expression must not import anything
 from typing import Any, Dict, List, Optional, Set, Callable, Union
 
 
@@ -325,8 +326,6 @@ class TransactionContext:
             fuzzy("STARBUCKS")                     # Search description
             fuzzy(field.vendor, "STARBCKS", 0.75)  # Search custom field with threshold
         """
-        from difflib import SequenceMatcher
-
         # Parse arguments: fuzzy(pattern), fuzzy(pattern, threshold),
         # fuzzy(text, pattern), or fuzzy(text, pattern, threshold)
         if len(args) == 1:
